@@ -240,7 +240,7 @@ fn c03_virt_step_panicking_invariant_mpanic() {
 
 // ---------------------------------------------------------------- pointer conversions
 #[kani::proof]
-fn c03_virt_ptr_conversions_mpanic() {
+fn c03_virt_pointer_conversions_mpanic() {
     let x: u64 = kani::any();
     let v = VirtAddr::from_ptr(x as *const u8);
     vp!(C03, is_canonical(v.0), "from_ptr produced a non-canonical address");
